@@ -140,16 +140,17 @@ def h_getpath(**kw) -> bool:
 
 _XSD = """<xs:schema xmlns:xs="http://www.w3.org/2001/XMLSchema" targetNamespace="urn:u1" xmlns="urn:u1" elementFormDefault="qualified">
  <xs:complexType name="A"><xs:sequence><xs:element name="x" type="xs:int"/><xs:element name="y" type="xs:string" minOccurs="0"/></xs:sequence>
-   <xs:attribute name="k" type="xs:int"/></xs:complexType>
- <xs:complexType name="B"><xs:sequence><xs:element name="x" type="xs:int"/></xs:sequence><xs:attribute name="k" type="xs:int" use="required"/></xs:complexType>
+   <xs:attribute name="k" type="xs:int"/><xs:attribute name="ref" type="xs:IDREF"/></xs:complexType>
+ <xs:complexType name="B"><xs:sequence><xs:element name="x" type="xs:int"/></xs:sequence><xs:attribute name="k" type="xs:int" use="required"/><xs:attribute name="ref" type="xs:IDREF"/></xs:complexType>
  <xs:element name="r"><xs:complexType><xs:sequence>
    <xs:element name="a" type="A"/><xs:element name="b" type="B" minOccurs="0" maxOccurs="unbounded"/><xs:element name="c" type="xs:int" minOccurs="0"/>
+   <xs:any namespace="##other" processContents="strict" minOccurs="0"/>
   </xs:sequence><xs:attribute name="id" type="xs:int" use="required"/></xs:complexType></xs:element></xs:schema>"""
 _DOCS = {
     "prefixed": '<p:r xmlns:p="urn:u1" id="1"><p:a k="1"><p:x>1</p:x><p:y>s</p:y></p:a><p:b k="1"><p:x>1</p:x></p:b><p:b k="2"><p:x>2</p:x></p:b><p:c>3</p:c></p:r>',
     "default": '<r xmlns="urn:u1" id="1"><a k="1"><x>1</x><y>s</y></a><b k="1"><x>1</x></b><b k="2"><x>2</x></b><c>3</c></r>',
 }
-FAULTS = ["bad-value", "remove", "extra-child", "swap-with-next", "drop-attr", "extra-attr", "bad-attr"]
+FAULTS = ["bad-value", "remove", "extra-child", "swap-with-next", "drop-attr", "extra-attr", "bad-attr", "foreign-leaf", "dangling-idref"]
 _ST = {}
 
 
@@ -211,6 +212,14 @@ def h_localise(node: int, fault: int) -> bool:
             return True
         for k in list(target.attrib):
             target.set(k, 'bad')
+    elif fk == "foreign-leaf":
+        if parent is not None:
+            return True       # the strict wildcard for other namespaces closes the root's model
+        focus = ET.SubElement(target, '{%s}zz' % U2)          # admitted by the wildcard, but no declaration is available
+    elif fk == "dangling-idref":
+        if not (target.tag.endswith('}a') or target.tag.endswith('}b')):
+            return True
+        target.set('ref', 'nowhere')
     errors = list(schema.iter_errors(res))
     if not errors:
         return False
